@@ -433,9 +433,116 @@ u_table(uint64_t idx, void *arg)
                            "max and float registers) through regaccess2blockaccess");
 }
 
+/* Blocks far beyond the default 128 octets: an allocator with 300000-octet blocks lets one frame carry tens of
+ * thousands of words; counts around 2^15 and 2^16 words and octets, both directions, both word sizes, both
+ * transports. The oracle is the same pairing as in step(), with the payload compared in full. */
+#define BIG_BLOCK 300000u
+static unsigned char big_pl[150000], big_raw[150100], big_wire[300300], big_reply[160000];
+
+static void
+u_bigblock(uint64_t idx, void *arg)
+{
+    (void)arg;
+    static const uint32_t counts[] = { 129, 365, 1000, 16383, 16384, 32767, 32768, 32769, 40000, 65535, 65536, 65537,
+                                       70001 };
+    const int serial = (int)(idx & 1), mem16 = (int)((idx >> 1) & 1), write = (int)((idx >> 2) & 1);
+    const uint32_t n = counts[(idx >> 3) % (sizeof counts / sizeof counts[0])];
+    const size_t ws = mem16 ? 2 : 1, octets = (size_t)n * ws;
+    vh_rng rg;
+    vh_unit_rng(&rg, "bigblock", idx);
+    vh_arena_reset();
+    rp_setup(&H, serial, mem16, BIG_BLOCK);
+    struct rframe f;
+    memset(&f, 0, sizeof f);
+    f.type = write ? RT_WRITE_REQ : RT_READ_REQ;
+    f.seq = (uint16_t)vh_rand(&rg);
+    f.addr = (uint32_t)vh_rand(&rg);
+    f.bsize = n;
+    if (write)
+        for (size_t i = 0; i < octets; i++)
+            big_pl[i] = (unsigned char)(i * 31u + (i >> 8) + f.seq);
+    f.payload = big_pl;
+    f.plen = write ? octets : 0;
+    f.options = (mem16 ? ROPT_W16 : 0) | (serial ? ROPT_HDCRC : 0) | (serial && f.plen ? ROPT_PLCRC : 0);
+    size_t rawn = rp_encode_raw(&f, big_raw);
+    size_t wn = rp_wire(serial, big_raw, rawn, big_wire);
+    rp_feed(&H, big_wire, wn);
+    H.fill_seed = (unsigned char)(f.seq + 3);
+    char key[96], ctx[200];
+    snprintf(key, sizeof key, "workload=bigblock transport=%s mem=%d frame=%s", serial ? "serial" : "tcp", mem16 ? 16 : 8,
+             write ? "write" : "read");
+    snprintf(ctx, sizeof ctx, "blocks of %u octets, %s of %u words (%zu octets) at %08x seq=%u", BIG_BLOCK,
+             write ? "write" : "read", n, octets, f.addr, f.seq);
+    VH_CASE4(idx, n, serial, mem16 * 2 + write);
+    RPMaybeFrame mf;
+    regp_recv(&H.p, &mf);
+    regp_process(&H.p, &mf);
+    regp_free(&H.p, mf.frame);
+    (*vh_ncases)++;
+    if (H.in_runaway) {
+        vh_fail("no-progress", key, "%s: more than %u source calls", ctx, H.in_bound);
+        return;
+    }
+    if (mf.error.id != 0 || mf.frame == NULL) {
+        vh_fail("valid-frame-rejected", key, "%s: error.id=%d", ctx, mf.error.id);
+        return;
+    }
+    if (rp_live_blocks(&H) != 0 || H.bad_free)
+        vh_fail("block-ledger", key, "%s: %d blocks live after regp_free, bad free=%d", ctx, rp_live_blocks(&H),
+                H.bad_free);
+    if (H.ncalls != 1) {
+        vh_fail("not-exactly-one-access", key, "%s: %d backend calls", ctx, H.ncalls);
+    } else {
+        const struct rp_becall *c = &H.call[0];
+        if (c->write != write || c->addr != f.addr || c->n != n)
+            vh_fail("access-differs", key, "%s: backend saw %s addr=%08x n=%zu", ctx, c->write ? "write" : "read", c->addr,
+                    c->n);
+        if (c->room == SIZE_MAX || c->room < octets)
+            vh_fail("backend-buffer-too-small", key, "%s: room behind the pointer %zu", ctx, c->room);
+        else if (write && (c->plseen != octets || c->plhash != rp_hash(big_pl, octets)))
+            vh_fail("payload-differs", key, "%s: backend saw %zu octets starting %s", ctx, c->plseen,
+                    vh_hex(c->payload, 16));
+    }
+    size_t rlen[1];
+    int nf = rp_unframe_into(serial, H.out, H.out_n, big_reply, sizeof big_reply, 1, rlen);
+    struct rframe r;
+    int err;
+    if (nf != 1) {
+        vh_fail("not-exactly-one-response", key, "%s: %d frames in %zu reply octets", ctx, nf, H.out_n);
+        return;
+    }
+    if ((err = rp_decode_raw(big_reply, rlen[0], &r)) != 0) {
+        vh_fail("response-malformed", key, "%s: reference decoder says %d for a reply of %zu octets, block size field %u",
+                ctx, err, rlen[0], r.bsize);
+        return;
+    }
+    if (r.type != (write ? (unsigned)RT_WRITE_RESP : (unsigned)RT_READ_RESP) || r.meta != 0 || r.seq != f.seq ||
+        r.addr != f.addr || (!write && r.bsize != n))
+        vh_fail("response-header", key, "%s: type=%u code=%u seq=%u addr=%08x bsize=%u", ctx, r.type, r.meta, r.seq,
+                r.addr, r.bsize);
+    if (write) {
+        if (r.plen != 0)
+            vh_fail("response-payload", key, "%s: write acknowledgement with %zu payload octets", ctx, r.plen);
+    } else {
+        size_t bad = SIZE_MAX;
+        for (size_t i = 0; i < r.plen && i < octets && bad == SIZE_MAX; i++)
+            if (r.payload[i] != rp_fill(H.fill_seed, i))
+                bad = i;
+        if (r.plen != octets || bad != SIZE_MAX)
+            vh_fail("response-payload", key, "%s: acknowledgement carries %zu octets, backend delivered %zu; first "
+                    "difference at %zd", ctx, r.plen, octets, bad == SIZE_MAX ? (ssize_t)-1 : (ssize_t)bad);
+    }
+    VH_COUNT("frame of more than 128 octets through a large-block allocator");
+    if (octets >= 65536)
+        VH_COUNT("frame carrying 65536 or more payload octets");
+    vh_sig(0x06200000ull ^ idx);
+}
+
 void
 harness_run(void)
 {
+    for (uint64_t i = 0; i < 8u * 13u; i++)
+        vh_unit("bigblock", i, u_bigblock, NULL);
     for (uint64_t i = 0; i < (vh_tier ? 80000u : 700u); i++)
         vh_unit("session", i, u_session, NULL);
     for (uint64_t i = 0; i < (vh_tier ? 20000u : 300u); i++)
@@ -447,6 +554,7 @@ harness_run(void)
     }
     vh_require("non-request frame: no access, no reply");
     vh_require("request with the wrong word size");
+    vh_require("frame carrying 65536 or more payload octets");
     static const char *t[] = { "table verdict -> ACK", "table verdict -> EUNMAPPED", "table verdict -> EACCESS",
                                "table verdict -> ERANGE", "table verdict -> EINVALID", "table verdict -> EIO" };
     for (size_t i = 0; i < 6; i++)
